@@ -1122,7 +1122,13 @@ class Exec:
         pre = src_prefix(s)
         names = assigned_names([s])
         untyped = [n for n in names if n not in st.env and n not in self.c.locals]
-        if untyped and not any(pre.startswith(a) for a in self.c.abstract_ok):
+        listed = any(pre.startswith(a) for a in self.c.abstract_ok)
+        if not listed:
+            # a statement the engine (or a specification clause attached to it) cannot handle is abstracted only
+            # when the contract says so; otherwise the contract does not apply to this code any more (STALE) -
+            # silently havocking it would turn a harmless refactoring into failing obligations further down
+            raise Unsupported("statement %r is not supported (%s) and not listed in abstract_ok" % (pre, why))
+        if untyped and not listed:
             raise Unsupported("cannot abstract %r (%s): no type for %s" % (pre, why, untyped))
         for n in names:
             if n in st.env:
